@@ -5,7 +5,7 @@ import logsgen as G
 from lib import esc, unesc
 
 THEOREMS = ['C15.C15_quoted_value_whole', 'C15.C15_value_unquoted', 'C15.C15_hex_roundtrip', 'C15.C15_plain_run',
-            'C15.C15_quote_in_value_breaks']
+            'C15.C15_quote_in_value_breaks', 'C15.C15_fields', 'C15.C15_quoted_verbatim', 'C15.C15_bare_verbatim']
 CLEANED = ('profile', 'name', 'target')
 
 
